@@ -279,6 +279,15 @@ U(id="C01.l2.w", props=["C01", "C03", "C18"], file="enc/lzma2_writer.rs", extra_
   functions=[("src/enc/lzma2_writer.rs", "write_lzma"), ("src/enc/lzma2_writer.rs", "write_uncompressed"), ("src/enc/lzma2_writer.rs", "new", "LZMA2Writer"),
              ("src/enc/lzma2_writer.rs", "should_start_independent_chunk"), ("src/enc/range_enc.rs", "write_to")],
   contract="chunk headers = xz LZMA2 grammar for every size/flag/props state; props byte present iff announced; dictionary reset announced iff needed; uncompressed data split in contiguous 64 KiB pieces; protocol invariant (independent-chunk request implies dict-reset and props requests) preserved by every step")
+SCHED = ["thread schedules are not explored: Kani executes sequentially; atomicity of Mutex / mpsc / atomics is assumed from std"]
+U(id="C08.queue", props=["C08", "C10"], file="work_queue.rs", harnesses=["c08_queue_fifo"], stubs=[], assumptions=SCHED,
+  functions=[("src/work_queue.rs", "push"), ("src/work_queue.rs", "steal"), ("src/work_queue.rs", "try_steal"), ("src/work_queue.rs", "close"),
+             ("src/work_queue.rs", "len"), ("src/work_queue.rs", "is_closed_and_empty")],
+  contract="sequential FIFO: each pushed item handed out exactly once in order; push after close refused; closed and drained queue returns None without blocking")
+U(id="C10.lock", props=["C10"], file="work_queue.rs", harnesses=["c10_queue_close_lock_discipline"], assumptions=SCHED, contract_stubs=["AtomicBool::store wrapper (lock-held assertion), Condvar::notify_* no-op"],
+  stubs=["AtomicBool::store -> asserts that the paired queue mutex is held (try_lock fails), then performs the store"],
+  functions=[("src/work_queue.rs", "close"), ("src/work_queue.rs", "steal")],
+  contract="monitor discipline (sufficient for no lost wake-up): the closed flag read by the condvar wait predicate is written only while the queue mutex is held")
 
 # ---------------------------------------------------------------------------------------- quick-tier budget
 # Harnesses kept in the quick tier per unit; every other harness of the unit runs in the thorough tier only.
